@@ -312,7 +312,46 @@ func runC03(c c03Case) (*vh.Violation, vh.Outcome) {
 		}
 	}
 	o.NonTrivial = accepted && rejectedMut
+	if v := c03Canary(); v != nil {
+		return v, o
+	}
 	return nil, o
+}
+
+// c03Canary: whatever was received before - accepted or dropped - the checks still mean the same afterwards. A fixed
+// valid heartbeat and a fixed valid request of a guardian of a fresh set are accepted, and each one's signature is
+// refused for the other purpose. (Without this, a message that damages package-level verification state would only
+// make *later* cases fail, and those would not reproduce on their own.)
+func c03Canary() *vh.Violation {
+	gs := mkSet(3, 40)
+	gst := node_common.NewGuardianSetState(nil)
+	gst.Set(gs)
+	hb, _ := proto.Marshal(&gossipv1.Heartbeat{NodeName: "canary-node", Counter: 7, Timestamp: 1700000000, GuardianAddr: vh.Addr(40).Hex(), BootTimestamp: 1699990000})
+	rq, _ := proto.Marshal(&gossipv1.ObservationRequest{ChainId: 2, TxHash: vh.Expand(4040, 32)})
+	hbSig := vh.SignDigest(40, ethcrypto.Keccak256(append([]byte(hbPrefix), hb...)))
+	rqSig := vh.SignDigest(40, ethcrypto.Keccak256(append([]byte(reqPrefix), rq...)))
+	addr := vh.Addr(40).Bytes()
+	if _, err := callHB(peer.ID("canary-peer"), &gossipv1.SignedHeartbeat{Heartbeat: hb, Signature: hbSig, GuardianAddr: addr}, gs, gst); err != nil {
+		return vh.V("C03/earlier-message-corrupted-verification", "after the messages of this case a valid heartbeat of a current guardian is rejected: %v", err)
+	}
+	if _, err := callReq(&gossipv1.SignedObservationRequest{ObservationRequest: rq, Signature: rqSig, GuardianAddr: addr}, gs); err != nil {
+		return vh.V("C03/earlier-message-corrupted-verification", "after the messages of this case a valid re-observation request of a current guardian is rejected: %v", err)
+	}
+	if got, err := callReq(&gossipv1.SignedObservationRequest{ObservationRequest: hb, Signature: hbSig, GuardianAddr: addr}, gs); err == nil && got != nil {
+		return vh.V("C03/earlier-message-corrupted-verification", "after the messages of this case a heartbeat signature is accepted for a re-observation request")
+	}
+	if got, err := callHB(peer.ID("canary-peer-2"), &gossipv1.SignedHeartbeat{Heartbeat: rq, Signature: rqSig, GuardianAddr: addr}, gs, gst); err == nil && got != nil {
+		return vh.V("C03/earlier-message-corrupted-verification", "after the messages of this case a re-observation request signature is accepted for a heartbeat")
+	}
+	// and a heartbeat whose first signed bytes a short, dropped heartbeat could have left behind
+	for n := 0; n <= 27; n += 9 {
+		short := hb[:n]
+		_, _ = callHB(peer.ID("canary-peer-3"), &gossipv1.SignedHeartbeat{Heartbeat: short, Signature: hbSig, GuardianAddr: addr}, gs, gst)
+		if _, err := callReq(&gossipv1.SignedObservationRequest{ObservationRequest: rq, Signature: rqSig, GuardianAddr: addr}, gs); err != nil {
+			return vh.V("C03/earlier-message-corrupted-verification", "a dropped %d-byte heartbeat made the next valid re-observation request fail: %v", n, err)
+		}
+	}
+	return nil
 }
 
 type panicErr struct{ v any }
